@@ -142,20 +142,39 @@ theorem extractBlock_none {p : Bytes} {n szx : Nat} (h : p.length ≤ n * blockS
 
 theorem step_b1_none {cfg : Cfg} {st : B1State} {cur : Req} {r : Resp} (h : r.block1 = none) :
     step cfg (.b1 st cur) r =
-      if r.code == codeContinue then .done (.error .unexpectedBlock1) else completeBlock2 cfg cur r := by
+      if r.code == codeContinue then .done (.error .unexpectedBlock1)
+      else if isSuccessful r.code && (sentBlock1 st cur).more then .done (.error .unexpectedBlock1)
+      else completeBlock2 cfg cur r := by
   simp only [step, h]
 
-/-- a response without Block1 option and with another code than 2.31 ends the upload phase -/
-theorem step_b1_none_final {cfg : Cfg} {st : B1State} {cur : Req} {r : Resp} (h : r.block1 = none)
-    (hc : r.code ≠ codeContinue) : step cfg (.b1 st cur) r = completeBlock2 cfg cur r := by
+/-- a response without Block1 option ends the upload phase when its code is unsuccessful (whatever
+block it answers) ... -/
+theorem step_b1_none_failed {cfg : Cfg} {st : B1State} {cur : Req} {r : Resp} (h : r.block1 = none)
+    (hc : isSuccessful r.code = false) : step cfg (.b1 st cur) r = completeBlock2 cfg cur r := by
   rw [step_b1_none h]
-  simp [hc]
+  have hne : ¬ r.code = codeContinue := by
+    intro he; rw [he] at hc; revert hc; decide
+  simp [hne, hc]
+
+/-- ... or when it answers the final (or only) block with another code than 2.31 -/
+theorem step_b1_none_final {cfg : Cfg} {st : B1State} {cur : Req} {r : Resp} (h : r.block1 = none)
+    (hc : r.code ≠ codeContinue) (hs : (sentBlock1 st cur).more = false) :
+    step cfg (.b1 st cur) r = completeBlock2 cfg cur r := by
+  rw [step_b1_none h]
+  simp [hc, hs]
 
 /-- 2.31 without Block1 option: protocol error -/
 theorem step_b1_none_continue {cfg : Cfg} {st : B1State} {cur : Req} {r : Resp} (h : r.block1 = none)
     (hc : r.code = codeContinue) : step cfg (.b1 st cur) r = .done (.error .unexpectedBlock1) := by
   rw [step_b1_none h]
   simp [hc]
+
+/-- a successful code without Block1 option in answer to a NON-final block: protocol error -/
+theorem step_b1_none_success {cfg : Cfg} {st : B1State} {cur : Req} {r : Resp} (h : r.block1 = none)
+    (hc : isSuccessful r.code = true) (hs : (sentBlock1 st cur).more = true) :
+    step cfg (.b1 st cur) r = .done (.error .unexpectedBlock1) := by
+  rw [step_b1_none h]
+  simp [hc, hs]
 
 theorem step_b1_some {cfg : Cfg} {st : B1State} {cur : Req} {r : Resp} {a : BlockOpt}
     (h : r.block1 = some a) :
@@ -195,6 +214,7 @@ theorem completeBlock2_none {cfg : Cfg} {t : Req} {r : Resp} (h : r.block2 = non
 theorem completeBlock2_some {cfg : Cfg} {t : Req} {r : Resp} {b : BlockOpt} (h : r.block2 = some b) :
     completeBlock2 cfg t r =
       if b.start ≠ 0 then .done (.error .unexpectedBlock2)
+      else if szxGrows t b then .done (.error .unexpectedBlock2)
       else if !b.more then .done (.ok (bodyOf r))
       else if b.num ≠ 0 then .done (.error .unexpectedBlock2)
       else if !b.validFor r.payload.length then .done (.error .unexpectedBlock2)
